@@ -130,6 +130,8 @@ def run(tier, rnd, out):
     run_stream(out, "empty-reply-at-each-step", cs, world.run_cases_fresh(cs))
     cs = self_signed_cases(rnd, 150 if tier == "quick" else 3000)
     run_stream(out, "payload-tail-equals-its-own-signature", cs, world.run_cases_fresh(cs))
+    cs = oc.mixed_cases(rnd, n)          # a device that takes its time (virtual clock): however late a reply, the frames are the same
+    run_stream(out, "operations-with-slow-replies", cs, world.run_cases_fresh(world.with_delays(rnd, cs)))
     tcp = [c for c in oc.mixed_cases(rnd, 3 if tier == "quick" else 25) if all(len(r) > 0 for r in c["replies"])]
     run_stream(out, "operations-over-tcp", tcp, asyncio.run(oc.run_tcp(tcp)))
     out.notes.append("frames are observed at writer.write (in-process stream) and, for the tcp stream, as received by a fake device")
